@@ -26,7 +26,7 @@ if VENDOR not in sys.path:
 
 import numpy as np  # noqa: E402
 
-MAX_VIOLATION_FILES = 25
+MAX_VIOLATION_FILES = int(os.environ.get('VERIF_MAXV', '25'))
 MAX_SAMPLES = 6
 
 
